@@ -155,3 +155,106 @@ def gen_pipeline_stages():
     out.append("(* does the cache ever hold a StageOutput::Compiled (whose clone is not faithful)? *)\n"
                f"Definition compiled_outputs_are_cached : bool := {'true' if compiled_cached else 'false'}.\n")
     return write_if_changed("PipelineStages.v", "".join(out))
+
+
+# ------------------------------------------------------------------------------------------------
+# every place where the compile path walks a hash table (iteration order is per-process random)
+HASH_SCOPE = ["modules/src", "frontend/src", "sema/src", "opt/src", "backend/src", "bytecode/src", "driver/src/modules",
+              "driver/src/pipeline", "cli/src/cli/commands/compile.rs", "air/src", "syntax/src"]
+_HT = r"(?:std::collections::)?(?:HashMap|HashSet)"
+_DECL = re.compile(r"\b([a-z_][a-z0-9_]*)\s*:\s*(?:&\s*(?:'[a-z_]+\s+)?(?:mut\s+)?)?(?:Rc<|Arc<|Option<|RefCell<|Box<)*\s*" + _HT + r"\s*<")
+_DECL_NESTED = re.compile(r"\b([a-z_][a-z0-9_]*)\s*:\s*(?:&\s*(?:mut\s+)?)?(?:Vec|Option|Rc|Box|VecDeque)\s*<\s*(?:Vec<\s*)?" + _HT + r"\s*<")
+_LET = re.compile(r"\blet\s+(?:mut\s+)?([a-z_][a-z0-9_]*)\s*(?::\s*[^=;]*?)?=\s*" + _HT + r"::(?:new|with_capacity|from|default)")
+_LETTY = re.compile(r"\blet\s+(?:mut\s+)?([a-z_][a-z0-9_]*)\s*:\s*" + _HT + r"\s*<")
+_FNRET = re.compile(r"\bfn\s+([a-z_][a-z0-9_]*)\s*(?:<[^>]*>)?\s*\([^)]*\)\s*->\s*&?\s*(?:'[a-z_]+\s+)?(?:mut\s+)?" + _HT + r"\s*<")
+_ITER = r"(?:\.iter\(\)|\.iter_mut\(\)|\.keys\(\)|\.values\(\)|\.values_mut\(\)|\.drain\(\)|\.into_iter\(\)|\.into_keys\(\)|\.into_values\(\))"
+
+
+def _scope_files():
+    import os
+    out = []
+    for c in HASH_SCOPE:
+        p = os.path.join(extract.REPO, c)
+        if os.path.isfile(p):
+            out.append(p)
+            continue
+        if not os.path.isdir(p):
+            raise ExtractError(f"hash-site scan: {c} is gone")
+        for r, _, fs in os.walk(p):
+            for f in sorted(fs):
+                if f.endswith(".rs") and "/tests" not in r:
+                    out.append(os.path.join(r, f))
+    return sorted(out)
+
+
+def hash_sites():
+    """-> (iteration sites [(file, fn, name)], serialized hash fields [(file, Struct.field)])"""
+    import os
+    rel = lambda f: os.path.relpath(f, extract.REPO)
+    texts, local, fields, accessors, nested_fields = {}, {}, {}, set(), {}
+    for f in _scope_files():
+        t = strip_comments(open(f, encoding="utf-8").read())
+        texts[f] = t
+        local[f] = set()
+        for rx in (_DECL, _LET, _LETTY):
+            local[f].update(m.group(1) for m in rx.finditer(t))
+        for sm in re.finditer(r"\bstruct\s+\w+[^{;]*\{(.*?)\n\}", t, flags=re.S):
+            for m in _DECL.finditer(sm.group(1)):
+                fields.setdefault(rel(f).split("/")[0], set()).add(m.group(1))
+            for m in _DECL_NESTED.finditer(sm.group(1)):
+                nested_fields.setdefault(rel(f).split("/")[0], set()).add(m.group(1))
+        accessors.update(m.group(1) for m in _FNRET.finditer(t))
+    # accessors defined in the runtime that hand out hash tables to the compile path
+    try:
+        accessors.update(m.group(1) for m in _FNRET.finditer(strip_comments(rd("runtime/src/vm/repl.rs"))))
+    except ExtractError:
+        pass
+    sites, ser = set(), set()
+    for f, t in texts.items():
+        fns = [(m.start(), m.group(1)) for m in re.finditer(r"\bfn\s+([a-z_][a-z0-9_]*)", t)]
+
+        def fn_at(pos):
+            n = "<top>"
+            for s, name in fns:
+                if s <= pos:
+                    n = name
+                else:
+                    break
+            return n
+        names = set(local[f]) | fields.get(rel(f).split("/")[0], set())
+        # loop variables that range over a container of hash tables
+        nested = set(m.group(1) for m in _DECL_NESTED.finditer(t)) | nested_fields.get(rel(f).split("/")[0], set())
+        for nm in nested:
+            for m in re.finditer(r"\bfor\s+(?:\(?\s*[a-z_0-9, ]*?)?([a-z_][a-z0-9_]*)\s*\)?\s+in\s+&?(?:mut\s+)?(?:[a-z_][a-z0-9_]*\.)*" + nm + r"\b(?:\.iter\(\)|\.iter_mut\(\))?(?:\.rev\(\))?\s*\{", t):
+                names.add(m.group(1))
+        for nm in sorted(names):
+            pat = re.compile(r"(?:\bfor\s+[^;{]*?\bin\s+&?(?:mut\s+)?(?:\*?[a-z_][a-z0-9_]*\.)*" + nm + r"\b(?!\s*\.(?:get|contains|contains_key|len|is_empty|insert|remove|entry))(?=[^;{]*\{))"
+                             r"|(?:\b(?:[a-z_][a-z0-9_]*\.)*" + nm + _ITER + ")")
+            for m in pat.finditer(t):
+                sites.add((rel(f), fn_at(m.start()), nm))
+        for nm in sorted(accessors):
+            pat = re.compile(r"\b" + nm + r"\(\s*\)" + _ITER + r"|\bin\s+&?(?:[a-z_][a-z0-9_]*\.)*" + nm + r"\(\s*\)\s*\{")
+            for m in pat.finditer(t):
+                sites.add((rel(f), fn_at(m.start()), nm + "()"))
+        # structs that are serialized (serde) and own a hash table
+        for sm in re.finditer(r"#\[derive\(([^)]*)\)\]\s*(?:#\[[^\]]*\]\s*)*pub\s+struct\s+(\w+)[^{;]*\{(.*?)\n\}", t, flags=re.S):
+            if "Serialize" in sm.group(1):
+                for m in _DECL.finditer(sm.group(3)):
+                    ser.add((rel(f), f"{sm.group(2)}.{m.group(1)}"))
+    return sorted(sites), sorted(ser)
+
+
+@extract.register("HashSites")
+def gen_hash_sites():
+    sites, ser = hash_sites()
+    if len(sites) < 10:
+        raise ExtractError("hash-site scan found almost nothing: the scanner no longer understands the source")
+    out = [HEADER.format(src=", ".join(HASH_SCOPE)),
+           "From Coq Require Import List String.\nImport ListNotations.\nLocal Open Scope string_scope.\n",
+           "(* (file, enclosing fn, hash-typed name) of every iteration over a HashMap/HashSet on the compile path *)\n",
+           "Definition hash_iteration_sites : list (string * string * string) :=\n  [" +
+           ";\n   ".join(f'("{a}", "{b}", "{c}")' for a, b, c in sites) + "].\n",
+           "(* serde-serialized structs that own a hash table (their serialization order is the table's) *)\n",
+           "Definition serialized_hash_fields : list (string * string) :=\n  [" +
+           "; ".join(f'("{a}", "{b}")' for a, b in ser) + "].\n"]
+    return write_if_changed("HashSites.v", "".join(out))
